@@ -638,6 +638,10 @@ func history(s sink.Sink, em *childrun.Emitter, rng *rand.Rand, sample bool) int
 		}
 	}()
 	n := 0
+	if sample {
+		s.Sample(map[string]any{"life_points": "plain channel, sub-channel funding (rewritten on the adversary's link), channel with locked sub-channels, sub-channel settlement (rewritten)",
+			"crafted_kinds_ordinary": len(ordinary), "funding_edits": len(fundEdits), "settlement_edits": len(settleEdits), "victims_initial_state": trunc(canon.String(a.chV.State()))})
+	}
 	report := func() bool { // returns false if the arena has to be abandoned
 		a.w.Quiesce()
 		time.Sleep(300 * time.Microsecond)
